@@ -146,6 +146,9 @@ def run_cases(ctx, with_model=True, stop_first=False):
     # the device moved in place AFTER it was meshed (a sample scanned under a fixed source): the kernel is evaluated where the
     # edges are now
     cfgs.append(dict(dev="ring", tol=1e-3, a=0.3, b=0.6, B=0.5, moved=(7.0, -3.0)))
+    # a field that is still being ramped while the steps are taken: the normal current then has a -dA/dt part, and the
+    # screening source is the WHOLE stored sheet current
+    cfgs.append(dict(dev="ring", tol=1e-3, a=0.3, b=0.6, B=0.8, ramped=True))
     # a thermalisation stage first: the state it ends with is recorded as frame 0 and must be as self-consistent as any other
     cfgs.append(dict(dev="bar_hole", tol=1e-4, a=0.3, b=0.7, B=0.5, cur={"source": 3.0, "drain": -3.0}, skip=0.03))
     if not ctx.quick:
@@ -186,8 +189,13 @@ def run_cases(ctx, with_model=True, stop_first=False):
             if first is None:
                 first = dict(key=key, what=what, **rp)
 
+        Aapp = cfg["B"]
+        if cfg.get("ramped"):
+            from tdgl.sources import ConstantField, LinearRamp
+
+            Aapp = LinearRamp(tmin=0.0, tmax=0.2) * ConstantField(cfg["B"], field_units="mT", length_units=dev.length_units)
         with ErrLog() as log:
-            sol = tdgl.solve(dev, opts, applied_vector_potential=cfg["B"], terminal_currents=cfg.get("cur"))
+            sol = tdgl.solve(dev, opts, applied_vector_potential=Aapp, terminal_currents=cfg.get("cur"))
         frames, _ = runs.parse_h5(sol.path)
         for fr in frames:
             if fr["step"] == 0 and not cfg.get("skip"):
@@ -198,7 +206,7 @@ def run_cases(ctx, with_model=True, stop_first=False):
             sc_ = max(float(np.linalg.norm(A, axis=1).max()), 1e-300)
             mism = float(np.linalg.norm(A - ref, axis=1).max()) / sc_
             ctx.tol(f"self-consistency / tol (tol={cfg['tol']})", mism / cfg["tol"], 3.0)
-            ctx.case((cfg["dev"], cfg["tol"], cfg["reuse"], cfg.get("units", "um"), fr["step"]), nontrivial=bool(np.any(A)))
+            ctx.case((cfg["dev"], cfg["tol"], cfg["a"], cfg["b"], cfg["reuse"], cfg.get("units", "um"), bool(cfg.get("moved")), bool(cfg.get("ramped")), bool(cfg.get("skip")), fr["step"]), nontrivial=bool(np.any(A)))
             ctx.count("frames_checked")
             if mism > 3.0 * cfg["tol"]:
                 fail("not-self-consistent" + (":reused-mesh" if cfg["reuse"] else ""), f"{'second solve on a shared mesh with other London length/thickness, ' if cfg['reuse'] else ''}step {fr['step']}: stored A differs from (mu0/4pi) sum K a / r of the stored currents by {mism:.2e} (tolerance {cfg['tol']})", step=fr["step"], mismatch=mism)
